@@ -9,6 +9,7 @@ open Yaclib.Shared Yaclib.Driver
 structure Aux where
   names : List (String × Cb) := []     -- trace name of a callback pointer (cb0, cb1, …) ↦ model callback
   inJob : List (String × Cb) := []     -- thread ↦ the executor job it is running (between its body and its DecRef)
+  inRetire : List (String × Cb) := []  -- thread ↦ the combinator callback whose Retire() it is executing
   lastRetire : List (String × Cb × Option Res × Bool) := []   -- thread ↦ what the model said its last Retire() read
 
 structure St where
@@ -28,7 +29,7 @@ def parseOp (s : String) : Option Op :=
   | "sub_exec" => some (.attach .exec) | "then_exec" => some (.attach .exec)
   | "wait" => some (.attach .event)
   | "connect" => some (.attach .target) | "connect_sp" => some (.attach .target)
-  | "retire" => some (.attach .retire)
+  | "retire" => some (.attach .retire) | "retire_own" => some (.attach .retire)
   | "getc" => some .getc | "get_move" => some .getMove
   | "ready" => some .ready | "ready_touch" => some .readyTouch
   | "copy" => some .copy | "drop" => some .drop
@@ -100,6 +101,7 @@ inductive Parsed where
   | skip                         -- not part of the model
   | bad                          -- cannot be a step of the model
   | lab (l : Label) (a : Aux)    -- a model step, and the validator's memory after it
+  | note (a : Aux)               -- no model step, only the validator's memory changes
   | chk (ok : Bool)              -- a pure check against the validator's memory
 
 def toLabel (st : St) (ts : List String) : Parsed :=
@@ -145,22 +147,20 @@ def toLabel (st : St) (ts : List String) : Parsed :=
          | none => .bad
          | some n =>
            if op = "fsub" ∧ arg = "1" then
-             match a.inJob.lookup t with
-             | some c => .lab (.jDec c n) { a with inJob := a.inJob.filter (fun p => p.1 ≠ t) }
-             | none =>
+             match a.inJob.lookup t, a.inRetire.lookup t with
+             | some c, _ => .lab (.jDec c n) { a with inJob := a.inJob.filter (fun p => p.1 ≠ t) }
+             | none, some c =>
+                 -- Retire()'s DecRef: the model knows what its GetRef() had returned
+                 (match s.retsLd.find? (fun p => p.1 = c) with
+                  | some (_, m) =>
+                      .lab (.rRetire c s.stored (decide (m = 1)) n)
+                        { a with inRetire := a.inRetire.filter (fun p => p.1 ≠ t),
+                                 lastRetire := (t, c, s.stored, decide (m = 1)) :: a.lastRetire }
+                  | none => .bad)
+             | none, none =>
                match who with
-               | .ful =>
-                   (match headWalk s with
-                    | some (c, .refd m) =>
-                        if c.kind = .retire then
-                          .lab (.fRetire c s.stored (decide (m = 1)) n) { a with lastRetire := (t, c, s.stored, decide (m = 1)) :: a.lastRetire }
-                        else .lab (.fDec n) a
-                    | _ => .lab (.fDec n) a)
-               | .obs i =>
-                   (match (s.obs i).pc with
-                    | .run c (.refd m) =>
-                        .lab (.oRetire i c s.stored (decide (m = 1)) n) { a with lastRetire := (t, c, s.stored, decide (m = 1)) :: a.lastRetire }
-                    | _ => .lab (.oDrop i n) a)
+               | .ful => .lab (.fDec n) a
+               | .obs i => .lab (.oDrop i n) a
                | .root => .bad
            else if op = "fadd" ∧ arg = "1" then
              match who with
@@ -168,10 +168,13 @@ def toLabel (st : St) (ts : List String) : Parsed :=
              | .obs i => (match (s.obs i).pc with | .idle => .lab (.oCopy i n) a | _ => .lab (.oIncRef i n) a)
              | .root => .bad
            else if op = "load" then
-             match who with
-             | .ful => .lab (.fRefLoad n) a
-             | .obs i => (match (s.obs i).pc with | .evt _ => .lab (.oGetRef i n) a | _ => .lab (.oRefLoad i n) a)
-             | .root => .bad
+             match a.inRetire.lookup t with
+             | some c => .lab (.rRefLoad c n) a
+             | none =>
+               match who with
+               | .ful => .lab (.fRefLoad n) a
+               | .obs i => .lab (.oGetRef i n) a
+               | .root => .bad
            else .bad)
     | some _, "A" :: "cnt" :: _ => .bad
     -- ---- MutexEvent::Set of a waiter is one step, taken at its lock; everything else about mutexes / wait queues
@@ -191,6 +194,15 @@ def toLabel (st : St) (ts : List String) : Parsed :=
                | .obs i => .lab (.oInvoke i c r) a
                | .root => .bad
          | _, _ => .bad)
+    | some who, ["E", "enter", name] =>
+        (match findCb s name, who with
+         | some c, .ful => .lab (.fEnter c) a
+         | some c, .obs i => .lab (.oEnter i c) a
+         | _, _ => .bad)
+    | some _, ["E", "retiring", name] =>
+        (match findCb s name with
+         | some c => .note { a with inRetire := (t, c) :: a.inRetire }
+         | none => .bad)
     | some who, ["E", "submit", name] =>
         (match findCb s name, who with
          | some c, .ful => .lab (.fSubmit c) a
@@ -236,7 +248,7 @@ def ruleOf (s : State) (l : Label) : String :=
   | .fSubmit .. => "fSubmit"
   | .fRefLoad .. => "fRefLoad"
   | .fForward _ _ mv => (match s.fpc with | .walk _ _ .post => "fForwardPost" | _ => if mv then "fForward.move" else "fForward.copy")
-  | .fRetire _ _ mv _ => if mv then "fRetire.move" else "fRetire.copy"
+  | .fEnter .. => "fEnter"
   | .oLoad _ x => if x = .result then "oLoad.result" else "oLoad.list"
   | .oCasOk .. => "oCasOk"
   | .oCasFail _ x => if x = .result then "oCasFail.result" else "oCasFail.list"
@@ -245,8 +257,7 @@ def ruleOf (s : State) (l : Label) : String :=
   | .oIncRef .. => "oIncRef"
   | .oSubmit .. => "oSubmit"
   | .oForward .. => "oForward"
-  | .oRefLoad .. => "oRefLoad"
-  | .oRetire _ _ _ mv _ => if mv then "oRetire.move" else "oRetire.copy"
+  | .oEnter .. => "oEnter"
   | .oWaited .. => "oWaited"
   | .oGetc .. => "oGetc"
   | .oGetRef .. => "oGetRef"
@@ -258,12 +269,15 @@ def ruleOf (s : State) (l : Label) : String :=
   | .oDrop .. => "oDrop"
   | .jInvoke .. => "jInvoke"
   | .jDec .. => "jDec"
+  | .rRefLoad .. => "rRefLoad"
+  | .rRetire _ _ mv _ => if mv then "rRetire.move" else "rRetire.copy"
 
 def stepS (st : St) (ts : List String) : Option (Option (St × String)) :=
   match toLabel st ts with
   | .skip => none
   | .bad => some none
   | .chk ok => if ok then some (some (st, "chk.consume")) else some none
+  | .note a => some (some ({ st with a := a }, "note.retiring"))
   | .lab l a =>
       match next st.s l with
       | none => some none
@@ -278,6 +292,7 @@ def finalS (st : St) : Option String :=
   if s.fpc ≠ .dec 0 then some "fulfiller not finished"
   else if !allObs s (fun o => o.pc = .idle ∧ o.todo = []) then some "an observer has not finished"
   else if s.jobs ≠ [] ∨ s.jobsRun ≠ [] ∨ !st.a.inJob.isEmpty then some "an executor job is pending"
+  else if s.rets ≠ [] ∨ s.retsLd ≠ [] ∨ !st.a.inRetire.isEmpty then some "a combinator callback has not retired"
   else if s.count ≠ 0 ∨ s.freed ≠ 1 then some s!"core not released exactly once: count={s.count} freed={s.freed}"
   else none
 
@@ -287,7 +302,7 @@ def showState (st : St) : String :=
   let s := st.s
   let os := (List.range s.n).map (fun t => s!"o{t}={showObs (s.obs t)}")
   s!"word={reprStr s.word} stored={reprStr s.stored} count={s.count} fpc={reprStr s.fpc} {" ".intercalate os} " ++
-  s!"jobs={reprStr s.jobs} jobsRun={reprStr s.jobsRun} chain={reprStr s.chain} fired={reprStr s.fired} " ++
+  s!"jobs={reprStr s.jobs} jobsRun={reprStr s.jobsRun} rets={reprStr s.rets} retsLd={reprStr s.retsLd} chain={reprStr s.chain} fired={reprStr s.fired} " ++
   s!"movedOut={s.movedOut} freed={s.freed} names={reprStr st.a.names}"
 
 def model : TraceModel :=
